@@ -24,7 +24,7 @@ def mc_btree(v, tier, focus="all"):
     r = common.tlc("MC_BTree", cfg=cfg, workers=16, timeout=3000 if tier == "thorough" else 600, name="mcbtree", heap="8g")
     common.tlc_require_ok(r, "MC_BTree (%s)" % cfg)
     v.add_tlc(r)
-    v.cov["mc_btree"] = {"cfg": cfg, "distinct_states": r.distinct, "generated": r.generated}
+    v.cov["mc_btree" if "mc_btree" not in v.cov else "mc_btree_" + focus] = {"cfg": cfg, "distinct_states": r.distinct, "generated": r.generated}
 
 
 def build_suite(tier, rnd, only=None):
@@ -433,7 +433,8 @@ def run_family(prop, tier, focus, build, owned, rule, extra=None):
     """Common driver: (M) the MC slice, (B)+(C) the operations `build` adds, judged by TraceOps."""
     v = common.Verdict(prop, tier)
     rnd = random.Random(common.seed())
-    mc_btree(v, tier, focus)
+    for f in focus.split("+"):
+        mc_btree(v, tier, f)
     h = common.build_harness()
     suite = build_suite(tier, rnd)
     d = common.sub(prop.lower())
